@@ -846,7 +846,7 @@ func (pipeline *Pipeline) Run(commits []*object.Commit) (map[LeafPipelineItem]in
 				}
 			}
 			commitTime := step.Commit.Committer.When.Unix()
-			if commitTime > newestTime {
+			if commitTime > newestTime || commitIndex == 0 {
 				newestTime = commitTime
 			}
 			commitIndex++
